@@ -5,7 +5,6 @@ import (
 	"strconv"
 	"strings"
 	"testing"
-	"testing/synctest"
 
 	"github.com/buildbarn/bb-storage/pkg/blobstore/replication"
 
@@ -20,7 +19,7 @@ const dedupKeys = 3
 func runDedup(t *testing.T, script []string, gen *hx.Rand) (*caseResult, []string) {
 	res := &caseResult{}
 	actual := []string{"#cfg dedup"}
-	synctest.Test(t, func(t *testing.T) {
+	bubble(t, res, func(t *testing.T) {
 		a := newArena()
 		w := &world{a: a, kind: "d", res: res, wasDone: map[int]bool{}, delivered: map[int]int{}}
 		w.repl = replication.NewDeduplicatingBlobReplicator(gatedBase{a}, gatedSink{a}, keyFormat)
